@@ -139,6 +139,7 @@ func runC04(c *core.Ctx) {
 	c04Codec(c)
 	c04ClientBookkeeping(c)
 	bufferFailedWriteLeavesState(c, "C04.R6")
+	unifierChunkedUploadContext(c, "C04.R7")
 	// R3
 	c01CommitGateAs(c, "C04.R3")
 }
@@ -414,6 +415,7 @@ func c04ClientBookkeeping(c *core.Ctx) {
 	flush := c.P.Method(ptr, "flush")
 	write := declaredMethod(c, ptr, "Write")
 	flushContentLengthIsBodySize(c, "C04.R5")
+	contentRangeOnEveryFlush(c, "C04.R5")
 	if flush == nil || write == nil {
 		c.Fail("C04.R5", "anchor/blobWriter.flush", 0, "blobWriter.flush / Write not found")
 		return
